@@ -805,7 +805,9 @@ func checkC14(c *Ctx, n int) {
 			if clean == "" {
 				lines = nil
 			}
-			bad := []string{"[unterminated", "no equals sign here", "[]", "[  ]", "k = \"unterminated", "k = \"bad\\q\"", "= v"}[c.Rng.Intn(7)]
+			// (a quoted literal with text behind its closing quote is bad quoting, not a literal plus a comment)
+			bad := []string{"[unterminated", "no equals sign here", "[]", "[  ]", "k = \"unterminated", "k = \"bad\\q\"", "= v",
+				"k = \"abc\"def", "k = \"abc\" \"def\"", "k = \"a\\\"b\" c", "k = \"two\", \"three\"", "k = \"abc\" ; not a comment"}[c.Rng.Intn(12)]
 			at := c.Rng.Intn(len(lines) + 1)
 			if c.Rng.Intn(2) == 0 {
 				// a fault of meaning instead of syntax: an entry of the global section (first line of the
